@@ -446,4 +446,46 @@ mod tests {
 
         Ok(())
     }
+
+    #[test]
+    fn test_records_with_a_missing_name() -> io::Result<()> {
+        use bstr::BStr;
+        use sam::alignment::{RecordBuf, io::Write as _};
+
+        let header = sam::Header::default();
+
+        let records = [
+            RecordBuf::builder().set_name("r0").build(),
+            RecordBuf::default(),
+            RecordBuf::builder().set_name("r2").build(),
+        ];
+
+        let mut writer = crate::io::Writer::new(Vec::new());
+        writer.write_header(&header)?;
+
+        for record in &records {
+            writer.write_alignment_record(&header, record)?;
+        }
+
+        writer.try_finish(&header)?;
+        let src = writer.get_ref().clone();
+
+        let mut reader = Reader::new(&src[..]);
+        let header = reader.read_header()?;
+
+        let actual: Vec<_> = reader
+            .records(&header)
+            .map(|result| result.map(|record| record.name().map(|name| name.to_owned())))
+            .collect::<io::Result<_>>()?;
+
+        let expected = [
+            Some(BStr::new("r0").to_owned()),
+            None,
+            Some(BStr::new("r2").to_owned()),
+        ];
+
+        assert_eq!(actual, expected);
+
+        Ok(())
+    }
 }
